@@ -1,6 +1,7 @@
 """C01 - every submitted item runs exactly once, none stranded; sync forms return; async forms never wait."""
 from vlib import *
 from props.lane_common import *
+import os
 PROP = "C01"
 
 def run(tier, seed):
@@ -8,16 +9,56 @@ def run(tier, seed):
     v.assumptions = ["root queue abstracted as a bag served by fair workers (pool growth: see Root.tla when present)",
                      "TLC bounds: 2 clients x 2 workers, <= 3-4 items per configuration",
                      "real executions sample schedules (seeded perturbation inside atomicity windows)"]
-    run_models(v, PROP, ["Q1", "Q2b"] if tier == "quick" else ["Q1", "Q2b", "Q2q", "Q1p", "Q6b"])
+    run_models(v, PROP, ["Q1"] if tier == "quick" else ["Q1", "Q2b", "Q2q", "Q1p", "Q6b"])
     run_mutants(v, PROP, [("Q1", "unlock_ignores_dirty")])
     dqstate_conformance(v, PROP)
+    root_queue(v, tier, seed)
     n = 1 if tier == "quick" else 6
     runs = []
     for k in range(n):
         runs += [dict(W=1, pp=1, execs=10, ops=40, perturb=2 + k % 2), dict(W=2, pp=1, execs=8, ops=40, perturb=2),
-                 dict(W=0, pp=1, execs=8, ops=40, perturb=3, nt=4), dict(W=1, pp=1, susp=1, execs=6, ops=30, perturb=2)]
+                 dict(W=0, pp=1, execs=8, ops=40, perturb=3, nt=4)]
+        if tier != "quick":
+            runs += [dict(W=1, pp=1, susp=1, execs=6, ops=30, perturb=2)]
     drive(v, PROP, seed, runs, tier)
     return v.finish()
+
+def root_queue(v, tier, seed):
+    """Root.tla: the pthread-pool root queue delivers what Lane.tla's abstract bag assumes, including the
+    'every pool thread blocked on a later item' clause; bound to the code by drv_root + RootTrace."""
+    for name in (["R3"] if tier == "quick" else ["R3", "R4", "R2"]):
+        r = tlc_must_pass("Root/" + name, "MCRoot.tla", "Root_%s.cfg" % name, timeout=3000, metaname="C01_root_%s" % name)
+        v.add_model("Root/" + name, r)
+        if r.violated:
+            v.violation("Root.tla config %s violates %s" % (name, r.violated), save_replay(PROP, "Root_%s.tlc.out" % name, r.out))
+    src = open(os.path.join(SPEC, "cfg", "Root_R3.cfg")).read().replace('Mut = "none"', 'Mut = "no_monitor"')
+    p = os.path.join(rundir(PROP), "Root_R3_no_monitor.cfg")
+    open(p, "w").write(src)
+    r = tlc_must_pass("Root mutant no_monitor", "MCRoot.tla", p, timeout=900, metaname="C01_root_mut")
+    if not r.violated:
+        raise Broken("Root.tla mutant no_monitor not refuted")
+    v.notes.setdefault("spec_mutants_refuted", []).append({"mutant": "no_monitor", "config": "Root/R3", "by": r.violated})
+    drv = build_driver("drv_root")
+    for i in range(1 if tier == "quick" else 4):
+        tr = os.path.join(rundir(PROP), "root_%d.ndjson" % i)
+        rc, out, err = sh([drv, tr, str(seed * 100 + i), str(1 + i % 3), "1" if tier == "quick" else "2"], timeout=600)
+        if rc in (2, 70, 71):
+            what = {2: "global-queue item did not run exactly once", 70: "crash", 71: "hang: items of a global queue were stranded although the pool could grow"}[rc]
+            v.violation("%s: %s" % (what, err.strip()[-300:]), save_replay(PROP, "root_fail_%d.ndjson" % i, src=tr) if os.path.exists(tr) else tr)
+            continue
+        if rc != 0:
+            raise Broken("drv_root failed rc=%d: %s" % (rc, err[-500:]))
+        res = validate_trace("RootTrace.tla", "RootTrace.cfg", tr, nthreads=64, metaname="C01_roottr%d" % i)
+        if not res.accepted:
+            lines = open(res.trace_with_header).read().splitlines()
+            k = res.maxl or 1
+            v.violation("root-queue pool accounting: record %d is not a transition Root.tla allows (%s): %s" %
+                        (k, res.violated or "unexplained", lines[k - 1][:300] if k - 1 < len(lines) else ""),
+                        save_replay(PROP, "root_rejected_%d.ndjson" % i, src=res.trace_with_header))
+            continue
+        v.traces += 1
+        v.states += res.distinct
+        v.transitions += res.generated
 
 def replay(path, seed):
     print(open(path).read()[-3000:]); return 1
